@@ -246,6 +246,61 @@ def run_long_sources_here(ctx, rounds, nthreads, shift=0):
     return errors
 
 
+def run_failing_recompile_race(ctx, rounds):
+    """one thread's recompile of a LONG text that is refused only at its last character overlaps another thread's successful
+    recompile of the same evaluator: the refusal must not undo (or half-undo) what the other thread installed"""
+    from pyab_experiment.experiment_evaluator import ExperimentEvaluator
+    a = 'def e { salt: "a" splitters: u return "A1" weighted 1, "A2" weighted 1 }'
+    c = 'def e { salt: "c" splitters: u return "C1" weighted 1, "C2" weighted 2, "C3" weighted 1 }'
+    bads = [long_chain(500, 8, "/* " + "c" * 300 + " */")[:-1] + " @", long_chain(400, 4) + " def", long_chain(500, 6, "// x\n")[:-2] + '"']
+    units = [{"u": "u%d" % i, "x": 0} for i in range(40)]
+    errors = []
+    redirect = common.contextlib.ExitStack()
+    redirect.enter_context(common.contextlib.redirect_stdout(common.io.StringIO()))
+    redirect.enter_context(common.contextlib.redirect_stderr(common.io.StringIO()))
+    try:
+        want_a = [ExperimentEvaluator(a)(u=e["u"]) for e in units]
+        want_c = [ExperimentEvaluator(c)(u=e["u"]) for e in units]
+        for r in range(rounds):
+            ev = ExperimentEvaluator(a)
+            state = {}
+
+            def failing():
+                try:
+                    ev.recompile(bads[r % len(bads)])
+                    state["bad"] = "accepted"
+                except Exception as ex:  # noqa
+                    state["bad"] = type(ex).__name__
+
+            def succeeding():
+                time.sleep(0.01 * (1 + r % 4))
+                try:
+                    ev.recompile(c)
+                    state["good"] = "ok"
+                except Exception as ex:  # noqa
+                    state["good"] = type(ex).__name__
+                state["after_good"] = [ev(u=e["u"]) for e in units[:10]]
+
+            t1, t2 = threading.Thread(target=failing), threading.Thread(target=succeeding)
+            t1.start(); t2.start(); t1.join(); t2.join()
+            ctx.count("failing-recompile-race-rounds")
+            now = [ev(u=e["u"]) for e in units]
+            if state.get("bad") == "accepted" or state.get("good") != "ok":
+                errors.append({"kind": "recompile-outcome-under-overlap", "state": {k: v for k, v in state.items() if k != "after_good"}})
+            elif now != want_c:
+                errors.append({"kind": "refused-recompile-undid-a-concurrent-successful-one", "round": r, "now": now[:4], "installed": want_c[:4], "old": want_a[:4]})
+            else:
+                ev.recompile(a)
+                back = [ev(u=e["u"]) for e in units]
+                if back != want_a:
+                    errors.append({"kind": "recompile-ignored-after-overlapping-refusal", "round": r, "now": back[:4], "wanted": want_a[:4]})
+            if errors:
+                break
+    finally:
+        redirect.close()
+    return errors
+
+
 def run(ctx):
     dur = DUR[ctx.tier]
     if ctx.obligation_breaks:
@@ -267,6 +322,8 @@ def run(ctx):
             ctx.violation(f"threads={n}: {e['kind']}: {json.dumps(e)[:200]}", e)
     for e in run_same_text_recompiles(ctx, 4 if ctx.tier == "quick" else 40, 6)[:2]:
         ctx.violation(f"after its own recompile(new) returned, a thread's call is still served by the old experiment: {json.dumps(e)[:200]}", e)
+    for e in run_failing_recompile_race(ctx, 6 if ctx.tier == "quick" else 60)[:2]:
+        ctx.violation(f"a refused recompile overlapping a successful one on the same evaluator: {json.dumps(e)[:260]}", e)
     for e in run_long_sources(ctx, 3 if ctx.tier == "quick" else 30, 5)[:3]:
         ctx.violation(f"long sources compiled by several threads at once: {json.dumps(e)[:260]}", e)
     for i in range(max(2, min(total, 5000))):
@@ -275,6 +332,8 @@ def run(ctx):
 
 
 def search(ctx):
+    for e in run_failing_recompile_race(ctx, 40)[:2]:
+        ctx.violation(f"a refused recompile overlapping a successful one on the same evaluator: {json.dumps(e)[:260]}", e)
     for e in run_long_sources(ctx, 20, 6)[:3]:
         ctx.violation(f"long sources compiled by several threads at once: {json.dumps(e)[:260]}", e)
     for n in (4, 16):
